@@ -14,8 +14,8 @@
 EXTENDS NumSubjects, TLC, Json, IOUtils
 
 Rec == ndJsonDeserialize(IOEnv.TRACE)
-VARIABLES l, cls, n, S, y0, t
-vars == <<l, cls, n, S, y0, t>>
+VARIABLES l, cls, n, S, y0, s0, t
+vars == <<l, cls, n, S, y0, s0, t>>
 E == Rec[l]
 Fx(j) == FxFromJson(j)
 NumOK(j) == "s" \in DOMAIN j
@@ -24,30 +24,48 @@ NumOK(j) == "s" \in DOMAIN j
 Same(ys, zs, tol) == /\ Len(ys) = Len(zs)
                      /\ \A i \in 1..Len(ys) : /\ NumOK(ys[i]) /\ NumOK(zs[i])
                                               /\ FxLe(FxAbs(FxSub(Fx(ys[i]), Fx(zs[i]))), tol)
+\* indicator values (class "ind"): as Same, and a value that is not a number on one side (0/0 of a degenerate first
+\* candle) must be the same non-number on the other
+SameInd(ys, zs, tol) == /\ Len(ys) = Len(zs)
+                        /\ \A i \in 1..Len(ys) :
+                              IF NumOK(ys[i]) /\ NumOK(zs[i]) THEN FxLe(FxAbs(FxSub(Fx(ys[i]), Fx(zs[i]))), tol)
+                              ELSE ~NumOK(ys[i]) /\ ~NumOK(zs[i]) /\ "k" \in DOMAIN ys[i] /\ "k" \in DOMAIN zs[i] /\ ys[i].k = zs[i].k
+\* signals (action codes) are compared exactly, when logged
+SigOK(a, b) == a = b
 \* standard-deviation-like outputs: compared in the squared domain
 SameSq(ys, zs, tol) == /\ Len(ys) = Len(zs)
                        /\ \A i \in 1..Len(ys) : FxLe(FxAbs(FxSub(FxSqr(Fx(ys[i])), FxSqr(Fx(zs[i])))), tol)
 
-Init == l = 1 /\ cls = "" /\ n = 0 /\ S = FxZero /\ y0 = <<>> /\ t = 0
+Init == l = 1 /\ cls = "" /\ n = 0 /\ S = FxZero /\ y0 = <<>> /\ s0 = <<>> /\ t = 0
 
 TNew == /\ E.ev = "pre_new"
-        /\ cls' = E.class /\ n' = E.n /\ S' = Fx(E.scale) /\ y0' = <<>> /\ t' = 0
+        /\ cls' = E.class /\ n' = E.n /\ S' = Fx(E.scale) /\ y0' = <<>> /\ s0' = <<>> /\ t' = 0
 
 \* rounding allowance without drift: eps * 16 k * S  (k: terms combined; S: magnitude of the output scale)
 TolConst == IF cls = "exact" THEN FxZero ELSE Allow(n + 4, 0, 1, S)
 TolPair(tt) == IF cls = "exact" THEN FxZero ELSE FxMulInt(Allow(n + 4, 8, tt, S), 2)
 
 TConst == /\ E.ev = "pre_const"
-          /\ IF y0 = <<>> THEN y0' = E.y
-             ELSE /\ (IF cls = "sq" THEN SameSq(E.y, y0, Allow(n + 4, 0, 1, FxSqr(S))) ELSE Same(E.y, y0, TolConst))
-                  /\ y0' = y0
-          /\ t' = t + 1 /\ UNCHANGED <<cls, n, S>>
+          /\ LET s2 == IF "mag" \in DOMAIN E THEN FxMax(S, Fx(E.mag)) ELSE S
+             IN  /\ IF y0 = <<>> THEN y0' = E.y
+                    ELSE /\ (IF cls = "sq" THEN SameSq(E.y, y0, Allow(n + 4, 0, 1, FxSqr(S)))
+                             ELSE IF cls = "ind" THEN SameInd(E.y, y0, Allow(n + 4, 0, 1, s2))
+                             ELSE Same(E.y, y0, TolConst))
+                         /\ y0' = y0
+                 /\ S' = s2
+          /\ IF "s" \in DOMAIN E
+             THEN IF t = 0 THEN s0' = E.s ELSE SigOK(E.s, s0) /\ s0' = s0
+             ELSE s0' = s0
+          /\ t' = t + 1 /\ UNCHANGED <<cls, n>>
 
 TPair == /\ E.ev = "pre_pair"
          /\ LET s2 == FxMax(S, Fx(E.mag))
                 tol == IF cls = "exact" THEN FxZero ELSE FxMulInt(Allow(n + 4, 8, t + 1, s2), 2)
-            IN  IF cls = "sq" THEN SameSq(E.y, E.yk, FxMulInt(Allow(n + 4, 8, t + 1, FxSqr(s2)), 4)) ELSE Same(E.y, E.yk, tol)
-         /\ t' = t + 1 /\ S' = FxMax(S, Fx(E.mag)) /\ UNCHANGED <<cls, n, y0>>
+            IN  IF cls = "sq" THEN SameSq(E.y, E.yk, FxMulInt(Allow(n + 4, 8, t + 1, FxSqr(s2)), 4))
+                ELSE IF cls = "ind" THEN SameInd(E.y, E.yk, tol)
+                ELSE Same(E.y, E.yk, tol)
+         /\ ("s" \in DOMAIN E => SigOK(E.s, E.sk))
+         /\ t' = t + 1 /\ S' = FxMax(S, Fx(E.mag)) /\ UNCHANGED <<cls, n, y0, s0>>
 
 Next == l <= Len(Rec) /\ (TNew \/ TConst \/ TPair) /\ l' = l + 1
 Spec == Init /\ [][Next]_vars
